@@ -86,6 +86,7 @@ PROPS = {
         level='other',
         contracts=[],
         functions=[],
+        case_functions=[dict(module='vf.contracts.layout_redirect', key='pygyro/model/layout.py::LayoutHandler')],
         bounded=[dict(module='vf.rt.bounded_layout', prop='C01',
                       bound='ranks 2-4, extents 2..7 (incl. n==p and uneven), process grids up to 3x2 incl. leading extent 1, '
                             'production layout sets + seeded random sets of 2-4 orderings, every ordered pair, with/without buffer, '
@@ -106,6 +107,7 @@ PROPS = {
         level='other',
         contracts=[],
         functions=[],
+        case_functions=[dict(module='vf.contracts.swapper_redirect', key='pygyro/model/layout.py::LayoutSwapper')],
         bounded=[dict(module='vf.rt.bounded_layout', prop='C03',
                       bound='3-D groupings [[p0,p1],p0] / [[p0,p1],[p0]] and the 4-D grouping of the standard layouts with their 1-D '
                             'versions, process grids (1,1)..(3,2) incl. extents of 1, extents 2..7 (even, uneven, n==p), every '
